@@ -92,6 +92,7 @@ def rule_modulus_table(repo: Repo, rep: Report) -> None:
             rep.violation("F-MODULUS", fi, construct, f"not primitive: {'irreducible' if irr else 'reducible'}, order of x is {gf2.order_of_x(p)} instead of {(1 << m_) - 1}")
         else:
             rep.ok("F-MODULUS", fi, construct, f"degree {m_}, x has order {(1 << m_) - 1}")
+    rep._modulus_table = dict(table)  # type: ignore[attr-defined]
     missing = [m_ for m_ in range(1, 17) if m_ not in table]
     rep.check(not missing, "F-MODULUS-COVER", fi, "table keys cover m = 1..16", "all sixteen degrees tabulated", f"no modulus tabulated for m in {missing}")
     rep.floor("tabulated moduli", len(table), 16)
@@ -602,6 +603,131 @@ def rule_kernels(repo: Repo, rep: Report) -> None:
                 break
         if bad or undec:
             break
+    pow_undec, pow_bad, pow_count = undec, bad, count
+    # field product and inverse, in every tabulated field GF(2^m), m = 1..16, with the moduli of the source's own table
+    table = getattr(rep, "_modulus_table", None) or {1: 0b11, 2: 0b111, 3: 0b1011, 4: 0b10011}
+    import random as _random
+
+    class P:
+        __slots__ = ("value",)
+
+        def __init__(self, v):
+            self.value = v.value if isinstance(v, P) else v
+
+        def __mul__(self, o):
+            return P(gf2.pmul(self.value, o.value))
+
+        def __mod__(self, o):
+            return P(gf2.pmod(self.value, o.value))
+
+        @property
+        def degree(self):
+            return gf2.pdeg(self.value)
+
+    class FE2(FE):
+        __slots__ = ("m",)
+
+        def __init__(self, v, mod, m):
+            FE.__init__(self, v % (1 << m), mod)
+            self.m = m
+
+        def __mul__(self, o):
+            return FE2(gf2.pmulmod(self.v, o.v, self.mod), self.mod, self.m)
+
+        def __pow__(self, e):
+            return FE2(gf2.ppowmod(self.v, e, self.mod), self.mod, self.m)
+
+        @property
+        def value(self):
+            return self.v
+
+    class _ElemModel(ast.NodeTransformer):
+        def visit_Call(self, node):
+            self.generic_visit(node)
+            nm = call_name(node) or ""
+            if nm == "isinstance":
+                return ast.copy_location(ast.Constant(True), node)
+            if nm == "BinaryPolynomial" and len(node.args) == 1:
+                return ast.copy_location(ast.Call(func=ast.Name(id="__P__", ctx=ast.Load()), args=node.args, keywords=[]), node)
+            if nm == "FiniteBifieldElement" and len(node.args) == 2:
+                return ast.copy_location(ast.Call(func=ast.Name(id="__FE__", ctx=ast.Load()), args=[node.args[1]], keywords=[]), node)
+            if nm == "self.field" and len(node.args) == 1:
+                return ast.copy_location(ast.Call(func=ast.Name(id="__FE__", ctx=ast.Load()), args=[node.args[0]], keywords=[]), node)
+            return node
+
+        def visit_Compare(self, node):
+            self.generic_visit(node)
+            if unparse(node) in ("self.field != other.field", "other.field != self.field"):
+                return ast.copy_location(ast.Constant(False), node)
+            return node
+
+    def make_folder(m_, mod):
+        class F3(Folder):
+            def fold(self, node):
+                if isinstance(node, ast.Call) and isinstance(node.func, ast.Name) and node.func.id == "__FE__":
+                    return FE2(self.fold(node.args[0]), mod, m_)
+                if isinstance(node, ast.Call) and isinstance(node.func, ast.Name) and node.func.id == "__P__":
+                    return P(self.fold(node.args[0]))
+                if isinstance(node, ast.Attribute) and node.attr in ("value", "degree") and not (attr_chain(node) or "") in self.attrs:
+                    b_ = self.fold(node.value)
+                    if isinstance(b_, (P, FE2)):
+                        return getattr(b_, node.attr)
+                return super().fold(node)
+
+        return F3
+
+    import kvstatic.frag as _fr
+
+    for qual, what in (("FiniteBifieldElement.__mul__", "product"), ("FiniteBifieldElement.inverse", "inverse")):
+        fe_fi = repo.func(ALG, qual)
+        body = [ast.fix_missing_locations(_ElemModel().visit(copy.deepcopy(st))) for st in fe_fi.body]
+        bad = undec = None
+        count = 0
+        rnd = _random.Random(20260102)
+        for m_ in sorted(table):
+            mod = table[m_]
+            if not isinstance(mod, int) or gf2.pdeg(mod) != m_:
+                continue
+            size = 1 << m_
+            vals = list(range(size)) if m_ <= 4 else sorted({0, 1, 2, 3, size - 1, size - 2, size >> 1, (size >> 1) + 1} | {rnd.randrange(size) for _ in range(10)})
+            pairs = [(a_, b_) for a_ in vals for b_ in vals] if what == "product" else [(a_, None) for a_ in vals]
+            saved = _fr.Folder
+            _fr.Folder = make_folder(m_, mod)
+            try:
+                for a_, b_ in pairs:
+                    want = gf2.pmulmod(a_, b_, mod) if what == "product" else (gf2.ppowmod(a_, size - 2, mod) if a_ else None)
+                    names = {"self": FE2(a_, mod, m_)}
+                    attrs = {"self.value": a_, "self.field.modulus": P(mod), "self.field.size": size, "self.field.m": m_}
+                    if b_ is not None:
+                        names["other"] = FE2(b_, mod, m_)
+                        attrs["other.value"] = b_
+                    try:
+                        run_fragment(body, names, attrs, max_steps=6000)
+                        got = "no return"
+                    except FragReturn as r:
+                        got = r.value.v if isinstance(r.value, FE) else (r.value.value if isinstance(r.value, P) else r.value)
+                    except FragRaise:
+                        got = None
+                    except (Unfoldable, TypeError, AttributeError) as exc:
+                        undec = str(exc)
+                        break
+                    count += 1
+                    if got != want:
+                        bad = (m_, a_, b_, got, want)
+                        break
+            finally:
+                _fr.Folder = saved
+            if bad or undec:
+                break
+        construct = f"{qual}: {what} tabulated on {count} operand tuples over GF(2^1) .. GF(2^16)"
+        if undec is not None:
+            rep.undecided("KERNEL", fe_fi, f"{qual}: {what}", f"not evaluable ({undec})")
+        elif bad is not None:
+            m_, a_, b_, got, want = bad
+            rep.violation("KERNEL", fe_fi, construct, f"in GF(2^{m_}) (modulus {bin(table[m_])}) the {what} of {a_}" + (f" and {b_}" if b_ is not None else "") + f" comes out as {got}; the field value is {want}", node=fe_fi.node)
+        else:
+            rep.ok("KERNEL", fe_fi, construct, f"equals the field {what} (own arithmetic, the source's own moduli) on all of them", node=fe_fi.node)
+    undec, bad, count = pow_undec, pow_bad, pow_count
     construct = f"FiniteBifieldElement.__pow__ tabulated on {count} (field, base, exponent) triples"
     if undec is not None:
         rep.undecided("KERNEL", fi, "FiniteBifieldElement.__pow__", f"not evaluable ({undec})")
